@@ -20,6 +20,30 @@ func checkSkipsOnly(r *Run, p *Program, rule, construct string, f *ssa.Function,
 // skipsOnlyFrame reports (and returns true) when `work` in f can be bypassed over an edge that is neither allowed,
 // a loop bound, an error edge, nor an edge on which the function can only fail.
 func skipsOnlyFrame(r *Run, p *Program, rule, construct string, f *ssa.Function, work ssa.Instruction, allowed func(c *Cond) bool, badMsg string) bool {
+	return skipsOnlyFrameCtx(r, p, rule, construct, nil, f, work, allowed, badMsg)
+}
+
+// predicateAllowed: the condition is the result of a predicate callback (resolved through the call string) that
+// yields the skipping value only where `allowed` holds inside it.
+func predicateAllowed(ctx *Ctx, c *Cond, allowed func(c *Cond) bool) bool {
+	if ctx == nil || c.Op != token.ILLEGAL || c.V == nil {
+		return false
+	}
+	call, ok := strip(c.V).(*ssa.Call)
+	if !ok || call.Call.IsInvoke() {
+		return false
+	}
+	g := call.Call.StaticCallee()
+	if g == nil {
+		g, _, _ = resolveFuncValue(ctx, call.Call.Value, 0)
+	}
+	if g == nil || !inModule(g) {
+		return false
+	}
+	return returnsOnlyUnder(g, c.Pos, allowed)
+}
+
+func skipsOnlyFrameCtx(r *Run, p *Program, rule, construct string, ctx *Ctx, f *ssa.Function, work ssa.Instruction, allowed func(c *Cond) bool, badMsg string) bool {
 	w := &Walk{Fn: f, Stop: func(in ssa.Instruction) bool { return in == work }}
 	w.From()
 	bad := false
@@ -39,7 +63,7 @@ func skipsOnlyFrame(r *Run, p *Program, rule, construct string, f *ssa.Function,
 			if !edgeDominatesNot(f, b, k, work) {
 				continue
 			}
-			if allowed(c) || isLoopBound(c) || errNonNilEdge(c) != nil {
+			if allowed(c) || isLoopBound(c) || errNonNilEdge(c) != nil || predicateAllowed(ctx, c, allowed) {
 				continue
 			}
 			// an edge that leaves towards a failure return is fine: the function reports the entry instead of skipping it
@@ -88,7 +112,7 @@ func checkSkipsDeep(r *Run, p *Program, rule, construct string, nd Node, allowed
 			break
 		}
 		if site.Parent() == ctx.Fn {
-			if skipsOnlyFrame(r, p, rule, construct, ctx.Fn, site, allowed, badMsg) {
+			if skipsOnlyFrameCtx(r, p, rule, construct, ctx, ctx.Fn, site, allowed, badMsg) {
 				bad = true
 			}
 		}
@@ -104,8 +128,29 @@ func checkSkipsDeep(r *Run, p *Program, rule, construct string, nd Node, allowed
 func controlledDeep(nd Node, pred func(c *Cond) bool) bool {
 	site := nd.In
 	for ctx := nd.Ctx; ctx != nil && site != nil; ctx = ctx.Parent {
-		if site.Parent() == ctx.Fn && controlledBy(ctx.Fn, site, pred) {
-			return true
+		if site.Parent() == ctx.Fn {
+			ctx := ctx
+			if controlledBy(ctx.Fn, site, func(c *Cond) bool {
+				if pred(c) {
+					return true
+				}
+				// the result of a predicate callback that is true only where pred holds inside it
+				if c.Op == token.ILLEGAL && c.V != nil {
+					if call, ok := strip(c.V).(*ssa.Call); ok && !call.Call.IsInvoke() {
+						g := call.Call.StaticCallee()
+						if g == nil {
+							g, _, _ = resolveFuncValue(ctx, call.Call.Value, 0)
+						}
+						if g != nil && inModule(g) {
+							// reaching the site needs the predicate to be c.Pos: it must yield c.Pos only under pred
+							return returnsOnlyUnder(g, c.Pos, pred)
+						}
+					}
+				}
+				return false
+			}) {
+				return true
+			}
 		}
 		site = ctx.Site
 	}
@@ -399,9 +444,9 @@ func ruleOpenOrder(r *Run, p *Program, rule string) {
 					}
 				}
 			case "(*pogreb.DB).del":
-				b, isc := constBool(c.Call.Args[3])
+				b, isc := boolArg(&c.Call)
 				r.check(isc && !b, rule, "(*pogreb.DB).recover:replay-delete-no-wal", p.Pos(c.Pos()), "replaying a delete record does not append a new delete record", "replay of a delete record writes to the log again")
-				r.check(isFieldLoadOfParam(c.Call.Args[2], "pogreb.record.key"), rule, "(*pogreb.DB).recover:replay-delete-key", p.Pos(c.Pos()), "the key deleted is the record's key", "replay deletes a key other than the record's")
+				r.check(byteSliceArg(&c.Call) != nil && isFieldLoadOfParam(byteSliceArg(&c.Call), "pogreb.record.key"), rule, "(*pogreb.DB).recover:replay-delete-key", p.Pos(c.Pos()), "the key deleted is the record's key", "replay deletes a key other than the record's")
 			case "(*pogreb.DB).put":
 				r.check(isFieldLoadOfParam(c.Call.Args[2], "pogreb.record.key"), rule, "(*pogreb.DB).recover:replay-put-key", p.Pos(c.Pos()), "the key inserted is the record's key", "replay inserts a key other than the record's")
 			}
@@ -551,7 +596,7 @@ func ruleC03WriteAhead(r *Run, p *Program, rule string) {
 		r.fn(funcKey(f))
 		instrsOf(f, func(in ssa.Instruction) {
 			if c, ok := in.(*ssa.Call); ok && calleeKey(&c.Call) == "(*pogreb.DB).del" {
-				b, isc := constBool(c.Call.Args[3])
+				b, isc := boolArg(&c.Call)
 				r.check(isc && b, rule, "(*pogreb.DB).Delete:writes-wal", p.Pos(c.Pos()), "Delete asks for a delete record in the log", "Delete removes the key from the index without writing a delete record: the key comes back after recovery")
 			}
 		})
@@ -573,14 +618,29 @@ func ruleC03WriteAhead(r *Run, p *Program, rule string) {
 					if c == nil || c.Op != token.ILLEGAL || c.Pos {
 						return false
 					}
-					// the edge "writeWAL is false"
+					// the edge "the caller asked for no delete record": a boolean captured from the enclosing operation
+					// (a variable, or a field of a captured parameter object) is false
 					for _, s := range sources(c.V) {
-						if fv, ok := s.(*ssa.FreeVar); ok && fv.Name() == "writeWAL" {
-							return true
+						if !isBoolType(s.Type()) {
+							continue
 						}
-						if u, ok := s.(*ssa.UnOp); ok {
-							if fv, ok := u.X.(*ssa.FreeVar); ok && fv.Name() == "writeWAL" {
+						x := s
+						for d := 0; d < 8; d++ {
+							switch y := x.(type) {
+							case *ssa.FreeVar:
 								return true
+							case *ssa.UnOp:
+								if y.Op != token.MUL {
+									d = 99
+									break
+								}
+								x = y.X
+							case *ssa.FieldAddr:
+								x = y.X
+							case *ssa.Field:
+								x = y.X
+							default:
+								d = 99
 							}
 						}
 					}
@@ -712,11 +772,8 @@ func ruleC04SealAfterReplay(r *Run, p *Program, rule string) {
 		s := sa.in
 		inLoop := inCycle(s.Block())
 		// guarded by index < len(segments)-1
-		bound := controlledBy(g, s, func(c *Cond) bool {
-			if c.Op != token.LSS || !c.Pos {
-				return false
-			}
-			for _, src := range sources(c.Y) {
+		isLenMinus1 := func(v ssa.Value) bool {
+			for _, src := range sources(v) {
 				if bo, ok := strip(src).(*ssa.BinOp); ok && bo.Op == token.SUB {
 					if k, isk := constInt(bo.Y); isk && k == 1 {
 						return true
@@ -724,6 +781,10 @@ func ruleC04SealAfterReplay(r *Run, p *Program, rule string) {
 				}
 			}
 			return false
+		}
+		bound := controlledBy(g, s, func(c *Cond) bool {
+			// the edge implies len-1 > index, however the comparison is written
+			return impliesCmp(c, isLenMinus1, func(v ssa.Value) bool { return !isLenMinus1(v) }, true)
 		})
 		r.check(inLoop && bound, rule, "(*pogreb.DB).recover:seal-all-but-newest", p.Pos(instrPos(s)), "every replayed segment except the newest (index < len-1 of the oldest-first order) is sealed", "recovery does not seal exactly all segments but the newest (by position in the oldest-first replay order): later writes may be appended to a segment that is not the newest in sequence order, and the next recovery replays them before older records")
 		// the segment sealed is an element of the replayed order
